@@ -26,7 +26,8 @@ LEVEL_TEXT = ('Static analysis (dominators / guard edges, def-use, polynomial no
               'verifier: one verdict gate, every weighted accumulator feeds it, the shape guards and decode checks dominate it, challenges are non-zero '
               'transcript outputs, and the closed-form constants have the protocol\'s values. Does not decide coefficient-level equality of the linear '
               'combination with the published relation (that needs symbolic execution of the loops).'
-              " Also runs C08's weighting rules (with a shared weight the gate only enforces a combination of the members' equations).")
+              " Also runs C08's weighting rules (with a shared weight the gate only enforces a combination of the members' equations) and C11's "
+              "derivation rules for the vector and blinding generators (no two positions of the relation may hold the same point).")
 ASSUMPTIONS = ['merlin challenge bytes are pseudorandom', 'Identity::identity() is the group identity and PartialEq on points is equality']
 RULE_TEXT = 'one obligation per structural fact; non-trivial = decided from a dominator, guard or value term'
 
